@@ -65,6 +65,11 @@ func (e *Exec) bytesOf(st *State, v Val) ([]*Term, bool) {
 	default:
 		return nil, false
 	}
+	if !ln.IsConst() || !off.IsConst() {
+		// a length the path condition fixes to a constant (a contract said len(result) == 40) counts as that constant
+		ln = e.pcConst(st, ln)
+		off = e.pcConst(st, off)
+	}
 	if !ln.IsConst() || !ln.C.IsInt64() || ln.C.Int64() > 4096 {
 		return nil, false
 	}
@@ -425,6 +430,7 @@ func (e *Exec) cryptoInvoke1(st *State, fr *Frame, recv *IfaceVal, method string
 			return []callRes{{st2, TupleVal{n, errNil(e)}}}
 		}
 		// symbolic data: the running message is no longer known
+		debugf("crypto: hash.Write with data the accumulator cannot take: poisoned")
 		e.poisonCrypto(st, p)
 		return []callRes{{st, TupleVal{n, errNil(e)}}}
 	case "hash.Reset":
@@ -449,6 +455,9 @@ func (e *Exec) cryptoInvoke1(st *State, fr *Frame, recv *IfaceVal, method string
 			}
 		}
 		if dig == nil {
+			if sv != nil {
+				debugf("crypto: hash.Sum over a message of unknown length (len %s): fresh digest", c.Show(sv.Fields[0].(*SliceVal).Len))
+			}
 			dig = make([]*Term, co.size)
 			for i := range dig {
 				dig[i] = c.Fresh("digest", BV(8))
@@ -1079,4 +1088,53 @@ func init() {
 	intrinsics["regexp.MustCompile"] = intrRegexpCompile(false)
 	intrinsics["regexp.Compile"] = intrRegexpCompile(true)
 	intrinsics["(*regexp.Regexp).MatchString"] = intrRegexpMatchMethod
+}
+
+// pcConst: t with the constants the path condition fixes substituted, including variables fixed through an equation
+// whose other side becomes constant (len(result) == 32 + len(x) with len(x) == 8); t itself when nothing applies.
+func (e *Exec) pcConst(st *State, t *Term) *Term {
+	if t.IsConst() {
+		return t
+	}
+	m := constFacts(st.PC)
+	if m == nil {
+		m = map[*Term]*Term{}
+	}
+	for round := 0; round < 3; round++ {
+		if r := e.C.Subst(t, m); r.IsConst() {
+			return r
+		}
+		added := false
+		var visit func(f *Term)
+		visit = func(f *Term) {
+			if f.Op == "and" {
+				for _, a := range f.Args {
+					visit(a)
+				}
+				return
+			}
+			if f.Op != "=" || len(f.Args) != 2 {
+				return
+			}
+			a, b := f.Args[0], f.Args[1]
+			for k := 0; k < 2; k++ {
+				if a.Op == "var" && !a.S.IsBool() {
+					if _, have := m[a]; !have {
+						if r := e.C.Subst(b, m); r.IsConst() {
+							m[a] = r
+							added = true
+						}
+					}
+				}
+				a, b = b, a
+			}
+		}
+		for _, f := range st.PC {
+			visit(f)
+		}
+		if !added {
+			break
+		}
+	}
+	return e.C.Subst(t, m)
 }
